@@ -4,7 +4,8 @@ from vlib import hx, unhx, case_line, show
 
 THEOREMS = ["C07_conversion_passes_through", "C07_other_sections_exact", "C07_parsed_units_have_distinct_sections",
             "C07_every_generated_service_passes_through", "C07_killmode_kept", "C07_syslog_identifier_kept", "C07_remain_after_exit_kept",
-            "C07_container_oneshot_kept", "C07_oneshot_type_kept", "C07_tables", "C07_example",
+            "C07_container_oneshot_kept", "C07_oneshot_type_kept", "C07_kube_oneshot_kept", "C07_kube_workdir_kept", "C07_build_workdir_kept",
+            "C07_tables", "C07_example",
             "C07_add_keeps_order", "C07_set_keeps_others", "C07_set_replaces_last", "C07_pinned_refuted"]
 
 # keys the generator itself writes: user values must still appear contiguously, in order; the generator's come before (Unit After/Wants defaults) or after
@@ -12,6 +13,86 @@ GEN_UNIT_POST = {"Requires", "After", "BindsTo", "Before", "Wants", "RequiresMou
 GEN_UNIT_PRE = {"After", "Wants"}
 GEN_SERVICE_POST = {"Environment", "Delegate", "Type", "NotifyAccess", "ExecStart", "ExecStartPre", "ExecStop", "ExecStopPost", "WorkingDirectory", "Restart", "PIDFile"}
 MANAGED = {"KillMode", "Type", "NotifyAccess", "SyslogIdentifier", "RemainAfterExit"}     # written with set(): only when the user made no (non-empty) choice
+
+
+SECTION_CONST = {"UNIT_SECTION": "Unit", "SERVICE_SECTION": "Service", "INSTALL_SECTION": "Install", "QUADLET_SECTION": "Quadlet"}
+CONVERTERS = {"container": "from_container_unit", "kube": "from_kube_unit", "pod": "from_pod_unit", "build": "from_build_unit",
+              "image": "from_image_unit", "network": "from_network_unit", "volume": "from_volume_unit"}
+
+
+def store_sites():
+    """store sites of convert.rs per function: {(method, section, key)}, and the call graph among its functions"""
+    import gen_tables
+    toks = gen_tables.nontest_tokens("src/quadlet/convert.rs")
+    spans = list(gen_tables.fn_spans(toks))
+    names = {n for n, _, _ in spans}
+    sites, calls = {}, {}
+    for name, a, b in spans:
+        st, cl = set(), set()
+        for k in range(a, b):
+            t = toks[k]
+            if t[0] != "id":
+                continue
+            if t[1] in ("add", "add_raw", "set", "set_raw", "prepend") and toks[k - 1] == ("p", ".") and toks[k + 1] == ("p", "(") \
+                    and toks[k - 2][1] in ("service", "service_unit_file"):
+                j = k + 2
+                while toks[j][0] != "id":
+                    j += 1
+                sec = SECTION_CONST.get(toks[j][1], toks[j][1])
+                while toks[j][0] != "str" and toks[j] != ("p", ";"):
+                    j += 1
+                st.add((t[1], sec, toks[j][1] if toks[j][0] == "str" else "<computed>"))
+            elif t[1] in names and t[1] != name and toks[k + 1] == ("p", "(") and toks[k - 1] != ("id", "fn"):
+                cl.add(t[1])
+        sites[name] = sites.get(name, set()) | st
+        calls[name] = calls.get(name, set()) | cl
+    return sites, calls
+
+
+def inventory(ctx):
+    """every store into the service unit reachable from a converter is one the theorems allow for that unit type:
+    add/add_raw only to the pairs of A_of t (Coq list, read back through the extracted model), set only of the MANAGED keys of
+    [Service], prepend only of [Unit] After/Wants"""
+    sites, calls = store_sites()
+    if not ctx.model_ok:
+        return
+    managed = [vlib.unhx(x).decode() for x in vlib.run_model([vlib.case_line("c07_lists", "managed")])[0].split("\t")[1:]]
+    problems, seen = [], 0
+    for typ, fn in CONVERTERS.items():
+        out = vlib.run_model([vlib.case_line("c07_lists", typ)])[0].split("\t")[1:]
+        allowed = {(vlib.unhx(out[i]).decode(), vlib.unhx(out[i + 1]).decode()) for i in range(0, len(out), 2)}
+        reach, todo = set(), [fn]
+        while todo:
+            f = todo.pop()
+            if f in reach:
+                continue
+            reach.add(f)
+            todo += list(calls.get(f, ()))
+        if fn not in sites:
+            problems.append("%s not found" % fn)
+            continue
+        used = set()
+        for f in reach:
+            for (m, sec, key) in sites.get(f, ()):
+                seen += 1
+                if m in ("add", "add_raw"):
+                    used.add((sec, key))
+                    if (sec, key) not in allowed:
+                        problems.append("%s (via %s): %s(%s, %s) is not in A_of %s" % (fn, f, m, sec, key, typ))
+                elif m == "set":
+                    if sec != "Service" or key not in managed:
+                        problems.append("%s (via %s): set(%s, %s) is not a managed [Service] setting" % (fn, f, sec, key))
+                elif m == "prepend":
+                    if (sec, key) not in (("Unit", "After"), ("Unit", "Wants")):
+                        problems.append("%s (via %s): prepend(%s, %s)" % (fn, f, sec, key))
+                else:
+                    problems.append("%s (via %s): %s(%s, %s)" % (fn, f, m, sec, key))
+        base = {("Unit", k) for k in ("Requires", "After", "BindsTo", "RequiresMountsFor", "SourcePath")}
+        stale = allowed - used - base
+        if stale:
+            problems.append("A_of %s lists %s, which %s never appends" % (typ, sorted(stale), fn))
+    ctx.oblig("store-site inventory: every add/add_raw/set/prepend on the service unit reachable from each of the 7 converters (%d sites) is allowed by A_of <type> / MANAGED / the default-dependency prepend of the theorems, and no listed pair is stale" % seen,
+              not problems, "; ".join(problems[:6]))
 
 
 def values(sections, sec, key):
